@@ -29,20 +29,31 @@ CASE_TYPE = 'case'
 CHECK = 'check_case'
 SHARD_SIZE = 70
 RULE = ('1..2 generated module classes (2..6 accessibles out of value/target/p1..p3/opt1/cmd with datatypes float, int, '
-        'scaled, bool, enum, string, array of int/float, struct; class-level default/value/needscfg/readonly/export/'
+        'scaled, bool, enum, string, blob, array of int/float/string, struct; class-level default/value/needscfg/readonly/export/'
         'visibility/group/missing description; read/write driver methods, a write method may take over the pending start '
         'values of other parameters (pops them from self.writeDict and calls their write methods, like '
         'frappy.rwhandler.CommonWriteHandler); optional custom mandatory module property) x '
         '1..3 config files with 1..3 Mod() sections each (overlapping names -> merging) x per accessible one of: not '
         'configured, bare value, Param(value, props), Param(props) with props out of min/max/unit/visibility/export/'
-        'readonly/group/description/needscfg/default, Group(); values valid, at the limits, outside the limits, of the '
+        'readonly/group/description/needscfg/default, Group(); every sixth case (and 40 % of the string/blob/array '
+        'parameters elsewhere): Param(value, <override>, ...) where the overridden datatype property decides whether the '
+        'value is legal - string minchars/maxchars/isUTF8, blob minbytes/maxbytes, array minlen/maxlen (+ keys forwarded '
+        'to the element type), float/int/scaled min/max; length of the value and overridden length drawn around each other '
+        'and around the class-level bounds, the ORDER of the keywords of a Param is the order of the list in the case '
+        '(config.Param appends `value` last; the observed key order of every Param dict is compared with the model); '
+        'values valid, at the limits, outside the limits, of the '
         'wrong type; error injections (unknown name, unknown parameter property, ill-typed property, inverted limits, '
         'missing required value, invalid module name, unknown group member), several at once; non-trivial = at least one '
         'accessible or module property configured; distinct = distinct (classes, files)')
 ASSUMPTIONS = [
     'datatypes of generated parameters are restricted to float, int, scaled, bool, enum, string, array of int/float and '
-    'struct of int/float members; configured datatype properties are min, max, unit (other datatype properties such as '
-    'fmtstr, minlen, maxchars are never configured)',
+    'struct of int/float members, blob, array of string; configured datatype properties are min, max, unit, minchars, '
+    'maxchars, isUTF8, minbytes, maxbytes, minlen, maxlen (fmtstr, absolute_resolution, relative_resolution, scale are '
+    'never configured); arrays are nested one level',
+    'a configured `default` written BEFORE a datatype override of the same Param that decides whether it is legal is not '
+    'generated (proposed finding C10/default-before-datatype-override: the code checks it with the datatype as it is at '
+    'that position; replays in corpus/C10/finding_default_before_datatype_override.json.pending); the model follows the '
+    'dict order in every case',
     'the class-level description of every accessible (datatype, default, value, export name, ...) is read from the real '
     'class object after class creation and given to the model as input: class creation/inheritance itself is C09',
     'datatype.default of the class-level datatype is supplied as data',
@@ -302,6 +313,18 @@ def parse_node_errors(errors):
     return res, other
 
 
+def dt_shape(dt):
+    """the properties of a datatype that decide which values datatype(value) accepts (Run.v dt_shape)"""
+    from frappy.datatypes import ArrayOf, BLOBType, StringType
+    if isinstance(dt, ArrayOf):
+        return [int(dt.minlen), int(dt.maxlen)] + dt_shape(dt.members)
+    if isinstance(dt, StringType):
+        return [int(dt.minchars), int(dt.maxchars), 1 if dt.isUTF8 else 0]
+    if isinstance(dt, BLOBType):
+        return [int(dt.minbytes), int(dt.maxbytes)]
+    return []
+
+
 def snapshot(mod, probes, cfgkeys):
     from frappy.params import Parameter
     from frappy.datatypes import ArrayOf, FloatRange, IntRange, ScaledInteger
@@ -311,13 +334,16 @@ def snapshot(mod, probes, cfgkeys):
         iscmd = not isinstance(a, Parameter)
         r = {'name': n, 'iscmd': iscmd, 'descr': a.propertyValues.get('description'), 'visibility': int(a.visibility),
              'group': a.group, 'export': a.export if a.export is False else str(a.export), 'value': ['none'],
-             'readonly': False, 'limits': None, 'unit': '', 'uninit': False, 'probes': []}
+             'readonly': False, 'limits': None, 'unit': '', 'uninit': False, 'probes': [], 'shape': [],
+             'readerror': None}
         if not iscmd:
             r['value'] = G.tag(a.value)
             r['readonly'] = bool(a.readonly)
             r['uninit'] = isinstance(a.readerror, ConfigError)
+            r['readerror'] = None if a.readerror is None else type(a.readerror).__name__
             if a.hasDatatype():
                 dt = a.datatype
+                r['shape'] = dt_shape(dt)
                 lf = dt.members if isinstance(dt, ArrayOf) else dt
                 if isinstance(lf, (FloatRange, IntRange, ScaledInteger)):
                     r['limits'] = [G.tag(lf.min), G.tag(lf.max)]
@@ -348,7 +374,7 @@ def run_case(case):
     import frappy.secnode as sn
     from frappy.server import Server
     obs = {'classes': [], 'load': 'ok', 'mods': [], 'registered': [], 'started': None, 'other_errors': [],
-           'describe': {}, 'sections': None, 'exc': None}
+           'describe': {}, 'sections': None, 'exc': None, 'orders': []}
     classes = []
     for i, cd in enumerate(case['classes']):
         c = build_class(cd, i)
@@ -386,6 +412,9 @@ def run_case(case):
             obs['load'] = type(e).__name__
             return obs
         obs['sections'] = list(srv.module_cfg)
+        # the key order of every Param dict as Module._add_accessible will walk it
+        obs['orders'] = [[str(mn), [[str(k), [str(x) for x in v]] for k, v in sec.items() if isinstance(v, dict)]]
+                         for mn, sec in srv.module_cfg.items()]
         probes = case.get('probes', {})
 
         def sync_thread(func, *args, **kwds):
@@ -551,12 +580,14 @@ def enc_res(r):
 def enc_pobs(r):
     lim = 'None' if r['limits'] is None else f'(Some ({G.gal_val(r["limits"][0])}, {G.gal_val(r["limits"][1])}))'
     return ('{| po_name := %s; po_iscmd := %s; po_value := %s; po_readonly := %s; po_visibility := %s; po_group := %s; '
-            'po_descr := %s; po_export := %s; po_limits := %s; po_unit := %s; po_uninit := %s; po_probes := %s |}' % (
+            'po_descr := %s; po_export := %s; po_limits := %s; po_unit := %s; po_uninit := %s; po_probes := %s; '
+            'po_shape := %s |}' % (
                 gs(r['name']), gal.boolean(r['iscmd']), G.gal_val(r['value']), gal.boolean(r['readonly']),
                 gal.z(r['visibility']), gs(r['group']), gs(r['descr'] if r['descr'] is not None else '?none?'),
                 'None' if r['export'] is False else f'(Some {gs(r["export"])})', lim, gs(r['unit']),
                 gal.boolean(r['uninit']),
-                gal.lst(r['probes'], lambda pr: f'({G.gal_val(pr[0])}, {enc_res(pr[1])})')))
+                gal.lst(r['probes'], lambda pr: f'({G.gal_val(pr[0])}, {enc_res(pr[1])})'),
+                gal.lst(r.get('shape') or [], gal.z)))
 
 
 def enc_ev(e):
@@ -585,9 +616,12 @@ def encode(case, obs):
     if obs['load'] != 'ok':
         o = 'OLoadFailed'
     else:
-        o = '(OLoaded %s %s %s)' % (gal.lst(obs['mods'], lambda nm: f'({gs(nm[0])}, {enc_mobs(nm[1])})'),
-                                     gal.lst(obs['registered'], gs),
-                                     gal.boolean(bool(obs['started']) and not obs['exc'] and not obs['other_errors']))
+        o = '(OLoaded %s %s %s %s)' % (
+            gal.lst(obs['mods'], lambda nm: f'({gs(nm[0])}, {enc_mobs(nm[1])})'),
+            gal.lst(obs['registered'], gs),
+            gal.boolean(bool(obs['started']) and not obs['exc'] and not obs['other_errors']),
+            gal.lst(obs.get('orders') or [], lambda mo: '(%s, %s)' % (
+                gs(mo[0]), gal.lst(mo[1], lambda ko: f'({gs(ko[0])}, {gal.lst(ko[1], gs)})'))))
     return '{| c_classes := %s; c_files := %s; c_obs := %s |}' % (
         gal.lst(obs['classes'], enc_class), gal.lst(case['files'], enc_file), o)
 
@@ -619,6 +653,19 @@ DT_POOL = [
     {'t': 'struct', 'members': [['a', {'t': 'int', 'min': 0, 'max': 10}], ['b', _fl(0, 10)]], 'optional': [],
      'client': False},
 ]
+LEN_POOL = [
+    {'t': 'string', 'min': 0, 'max': 10, 'utf8': False},
+    {'t': 'string', 'min': 1, 'max': 5, 'utf8': False},
+    {'t': 'string', 'min': 0, 'max': UNL, 'utf8': False},
+    {'t': 'string', 'min': 0, 'max': UNL, 'utf8': True},
+    {'t': 'blob', 'min': 0, 'max': 6},
+    {'t': 'blob', 'min': 2, 'max': 4},
+    {'t': 'array', 'elem': {'t': 'int', 'min': 0, 'max': 10}, 'min': 0, 'max': 3},
+    {'t': 'array', 'elem': _fl(0, 10), 'min': 1, 'max': 4},
+    {'t': 'array', 'elem': _fl(-FMAX, FMAX), 'min': 0, 'max': 10},
+    {'t': 'array', 'elem': {'t': 'string', 'min': 0, 'max': 4, 'utf8': False}, 'min': 1, 'max': 3},
+]
+DT_POOL += [LEN_POOL[1], LEN_POOL[4], LEN_POOL[9]]
 MAIN_DTS = [_fl(0, 10), _fl(-FMAX, FMAX), {'t': 'scaled', 'scale': F(0.1), 'min': F(0.0), 'max': F(10.0)},
             {'t': 'int', 'min': 0, 'max': 10}, {'t': 'array', 'elem': _fl(0, 10), 'min': 0, 'max': 3}]
 UNITS = ['', '', 'K', '$', '$/s', 'mm', 'm$']
@@ -658,8 +705,10 @@ def gen_valid(rng, d):
     if t == 'string':
         n = rng.randint(d['min'], min(d['max'], 6))
         return ''.join(rng.choice('abcXY 09' + ('é' if d['utf8'] else '')) for _ in range(n))
+    if t == 'blob':
+        return bytes(rng.choice(b'ab\x00\xff09') for _ in range(rng.randint(d['min'], min(d['max'], 6))))
     if t == 'array':
-        n = rng.randint(d['min'], d['max'])
+        n = rng.randint(d['min'], min(d['max'], 5))
         l = [gen_valid(rng, d['elem']) for _ in range(n)]
         return rng.choice([l, tuple(l)])
     return {n: gen_valid(rng, x) for n, x in d['members']}
@@ -671,6 +720,8 @@ def gen_outside(rng, d):
     t = d['t']
     if t == 'string' and d['max'] < 100:
         return 'x' * (d['max'] + 2)
+    if t == 'blob' and d['max'] < 100:
+        return b'x' * (d['max'] + 2)
     if t == 'enum':
         return rng.choice([77, 'nomember'])
     if lf is None:
@@ -694,8 +745,10 @@ def gen_wrong(rng, d):
         return rng.choice([None, [1], 1.5])
     if t == 'string':
         return rng.choice([5, None, ['a'], 1.5])
+    if t == 'blob':
+        return rng.choice([5, None, 'ab', [1]])
     if t == 'array':
-        return rng.choice([5, None, ['x'], 1.5])
+        return rng.choice([5, None, [None], 1.5])
     return rng.choice([5, None, 'ab', {'a': 1}, {'a': 1, 'b': 2, 'c': 3}, {'a': 'x', 'b': 1}])
 
 
@@ -829,7 +882,202 @@ def gen_bad_prop(rng, p):
     return [[rng.choice(['min', 'max', 'unit']), G.tag(1)]]
 
 
-def gen_module(rng, name, ci, cd):
+# ------------------------------------------------------------------ Param(value, <datatype property override>)
+LEN_KEYS = {'string': ('minchars', 'maxchars'), 'blob': ('minbytes', 'maxbytes'), 'array': ('minlen', 'maxlen')}
+LEN_BOUND = {'string': UNL, 'blob': 1 << 24, 'array': 1 << 24}
+CONV_KEYS = {'minchars', 'maxchars', 'isUTF8', 'minbytes', 'maxbytes', 'minlen', 'maxlen'}
+ALL_DT_KEYS = CONV_KEYS | {'min', 'max', 'unit'}
+
+
+def _len_status(v, bound):
+    """a configured length: 'ok' | 'wrong' (not a non-negative whole number) | 'unsure' (beyond the implementation bound
+    or a bool)"""
+    if isinstance(v, bool):
+        return 'unsure'
+    if not _isnum(v) or v != int(v) or v < 0:
+        return 'wrong'
+    return 'ok' if v <= bound else 'unsure'
+
+
+def spec_set(d, k, v):
+    """specification side: the datatype descriptor d with its datatype property k overridden by v ->
+    (descriptor, 'ok' | 'wrong' | 'unsure' | 'other'); an array hands every key that is not minlen/maxlen to its
+    element type; 'other' = not a length / character-set property of this datatype"""
+    t = d['t']
+    if t == 'array' and k not in LEN_KEYS['array']:
+        e2, st = spec_set(d['elem'], k, v)
+        return dict(d, elem=e2), st
+    if t in LEN_KEYS and k in LEN_KEYS[t]:
+        st = _len_status(v, LEN_BOUND[t])
+        if st != 'ok':
+            return d, st
+        return dict(d, **{'min' if k == LEN_KEYS[t][0] else 'max': int(v)}), 'ok'
+    if t == 'string' and k == 'isUTF8':
+        if isinstance(v, bool) or (type(v) is int and v in (0, 1)):
+            return dict(d, utf8=bool(v)), 'ok'
+        return d, ('unsure' if isinstance(v, float) and v in (0.0, 1.0) else 'wrong')
+    return d, 'other'
+
+
+def len_inverted(d):
+    if d['t'] == 'array':
+        return d['min'] > d['max'] or len_inverted(d['elem'])
+    return d['t'] in LEN_KEYS and d['min'] > d['max']
+
+
+def spec_shape(d):
+    if d['t'] == 'array':
+        return [d['min'], d['max']] + spec_shape(d['elem'])
+    if d['t'] == 'string':
+        return [d['min'], d['max'], 1 if d['utf8'] else 0]
+    if d['t'] == 'blob':
+        return [d['min'], d['max']]
+    return []
+
+
+def _mk_len_value(rng, d, n, nonascii=False):
+    """a value of the right kind with n characters / bytes / elements"""
+    t = d['t']
+    if t == 'string':
+        x = ''.join(rng.choice('abcXY09') for _ in range(n))
+        return ('\xb5' + x[1:]) if nonascii and n else x
+    if t == 'blob':
+        return bytes(rng.choice(b'ab\x00\xff09') for _ in range(n))
+    return [gen_valid(rng, d['elem']) for _ in range(n)]
+
+
+def gen_len_override(rng, d):
+    """(value, [[key, value]..]) for a string / blob / array datatype: lengths of the value and of the overridden
+    property are drawn around each other and around the class-level bounds, so that all four combinations of
+    legal/illegal for the class-level datatype x legal/illegal for the configured datatype occur"""
+    t = d['t']
+    a, b = d['min'], d['max']
+    kmin, kmax = LEN_KEYS[t]
+    bcap = b if b < 100 else rng.choice([3, 6])
+    n = rng.choice([a, bcap, bcap + 1, bcap + 2, max(a - 1, 0), (a + bcap) // 2, min(a + 1, bcap)])
+    over = []
+    r = rng.random()
+    if t == 'string' and r < 0.3:
+        # the character set decides
+        over.append(['isUTF8', rng.choice([True, True, False, 1, 0])])
+        n = max(1, min(n, bcap))
+        val = _mk_len_value(rng, d, n, nonascii=rng.random() < 0.85)
+        if rng.random() < 0.25:
+            over.append([kmax, rng.choice([n, n + 1, max(n - 1, 0)])])
+        rng.shuffle(over)
+        return val, over
+    keys = [kmax] if r < 0.65 else [kmin] if r < 0.85 else [kmin, kmax]
+    rng.shuffle(keys)
+    for k in keys:
+        if k == kmax:
+            m = rng.choice([max(n - 1, 0), n, n, n + 1, bcap + 3])
+        else:
+            m = rng.choice([max(n - 1, 0), n, n + 1, 0, 0])
+        over.append([k, m if rng.random() < 0.9 else float(m)])
+    if t == 'array' and rng.random() < 0.2:
+        # a key forwarded to the element type
+        lf = d['elem']
+        if lf['t'] in ('float', 'int', 'scaled'):
+            lo, hi = leaf_bounds(lf)
+            hi = 10 if hi == FMAX else hi
+            over.insert(rng.randint(0, len(over)), ['max', int(hi) + rng.choice([-1, 5])])
+        elif lf['t'] == 'string':
+            over.insert(rng.randint(0, len(over)), ['maxchars', rng.choice([0, 1, 6])])
+    return _mk_len_value(rng, d, n), over
+
+
+def gen_limit_override(rng, d):
+    """numeric types (for completeness): value and overridden min/max drawn around each other; the conversion of the
+    value does not depend on the limits"""
+    lf = numeric_leaf(d)
+    a, b = leaf_bounds(lf)
+    if a == -FMAX:
+        a, b = 0.0, 10.0
+    v = rng.choice([b + 5, b - 1, a - 5, a + 1, b, a])
+    k = rng.choice(['max', 'min'])
+    m = v + rng.choice([-1, 0, 1, 3])
+    if lf['t'] == 'int':
+        v, m = int(v), int(m)
+    elif lf['t'] == 'scaled':
+        v, m = float(round(v)), float(round(m))
+    return ([v] if d['t'] == 'array' else v), [[k, m]]
+
+
+BAD_OVERRIDES = {'string': [['maxchars', 'x'], ['minchars', -1], ['maxchars', 2.5], ['isUTF8', 'yes'], ['isUTF8', 2],
+                            ['maxchars', None], ['minlen', 1]],
+                 'blob': [['maxbytes', 'x'], ['minbytes', -1], ['maxbytes', [3]], ['maxchars', 3]],
+                 'array': [['maxlen', 'x'], ['minlen', -2], ['maxlen', 1.5], ['maxlen', None]]}
+
+
+def gen_override_entry(rng, p):
+    """Param(value, <overrides>, <other properties>) where an overridden datatype property decides (string, blob, array)
+    or, for the numeric types, merely accompanies the value.  The ORDER of the keywords is part of the case: it is the
+    order of the list; config.Param appends `value` after them."""
+    d = p.get('dt')
+    if not d:
+        return None
+    if d['t'] in LEN_KEYS:
+        val, over = gen_len_override(rng, d)
+    elif numeric_leaf(d) is not None:
+        val, over = gen_limit_override(rng, d)
+    else:
+        return None
+    if d['t'] in BAD_OVERRIDES and rng.random() < 0.06:
+        bad = rng.choice(BAD_OVERRIDES[d['t']])
+        over = [kv for kv in over if kv[0] != bad[0]]
+        over.insert(rng.randint(0, len(over)), list(bad))
+    props = [[k, G.tag(v)] for k, v in over]
+    have = {k for k, _ in props}
+    for kv in gen_props(rng, p, rng.randint(0, 2)):
+        if kv[0] not in have and kv[0] != 'default' and kv[0] not in ALL_DT_KEYS:
+            props.insert(rng.randint(0, len(props)), kv)
+            have.add(kv[0])
+    if p.get('descr') is None and 'description' not in have and rng.random() < 0.8:
+        props.insert(rng.randint(0, len(props)), ['description', G.tag('given in cfg')])
+    # a configured default: anywhere when the class-level and the configured datatype agree about it, AFTER the
+    # overrides when they do not (a default written BEFORE an override that decides about it is the proposed finding
+    # C10/default-before-datatype-override: corpus only)
+    if rng.random() < 0.25:
+        dcfg, okall = d, True
+        for k, v in over:
+            dcfg, st = spec_set(dcfg, k, v)
+            okall = okall and st in ('ok', 'other')
+        if okall:
+            for _ in range(6):
+                dv = gen_valid(rng, d) if rng.random() < 0.7 else (gen_outside(rng, d) or gen_valid(rng, d))
+                if spec_conv(d, dv)[0] == spec_conv(dcfg, dv)[0]:
+                    props.insert(rng.randint(0, len(props)), ['default', G.tag(dv)])
+                    break
+                if rng.random() < 0.5:
+                    props.append(['default', G.tag(dv)])
+                    break
+    return ['param', G.tag(val), props]
+
+
+def gen_override_case(rng):
+    """a case made for the overrides: most parameters have a string / blob / array datatype and most of them are
+    configured with Param(value, <override>)"""
+    cd = gen_class(rng)
+    for p in cd['params']:
+        if p['kind'] != 'param' or p.get('optional') or not p.get('dt') or p['name'] == 'value':
+            continue
+        if rng.random() < 0.75:
+            d = rng.choice(LEN_POOL)
+            p['dt'] = d
+            p['unit'] = rng.choice(UNITS) if leaf_of(d)['t'] in ('float', 'scaled') else ''
+            p.pop('value', None)
+            p.pop('default', None)
+            if rng.random() < 0.5:
+                p['default'] = G.tag(gen_valid(rng, d))
+            if rng.random() < 0.6:
+                p['has_write'] = True
+    mods = [gen_module(rng, name, 0, cd, bias=0.85) for name in rng.sample(['m1', 'm2', 'm3'], rng.randint(1, 2))]
+    case = {'classes': [cd], 'files': [{'eid': 'eq1', 'mods': mods}]}
+    case['probes'] = gen_probes(rng, case)
+    return case
+
+
+def gen_module(rng, name, ci, cd, bias=None):
     kws = []
     for p in cd['params']:
         n = p['name']
@@ -854,6 +1102,11 @@ def gen_module(rng, name, ci, cd):
             kws.append([n, rng.choice([['bare', G.tag(5)], ['param', None, [['min', G.tag(1)]]],
                                        ['param', None, [['description', G.tag('x')]]]])])
             continue
+        if rng.random() < (bias if bias is not None else 0.4 if d['t'] in LEN_KEYS else 0.06):
+            ent = gen_override_entry(rng, p)
+            if ent is not None:
+                kws.append([n, ent])
+                continue
         r = rng.random()
         vr = rng.random()
         if vr < 0.84:
@@ -939,6 +1192,20 @@ def gen_probes(rng, case):
                     o = gen_outside(rng, d)
                     if o is not None:
                         vals.append(o)
+                if d['t'] in LEN_KEYS:
+                    # lengths around the class-level and the configured length properties; a non-ASCII string
+                    lens = {d['min'], max(d['min'] - 1, 0), min(d['max'], 12), min(d['max'] + 1, 12)}
+                    kw = cfg.get(p['name'])
+                    if kw and kw[0] == 'param':
+                        for k, v in kw[2]:
+                            if k in LEN_KEYS[d['t']] and v[0] in ('int', 'float'):
+                                x = G.untag(v)
+                                if x == x and 0 <= x < 12:
+                                    lens |= {int(x), max(int(x) - 1, 0), int(x) + 1}
+                    for ln in rng.sample(sorted(lens), min(3, len(lens))):
+                        vals.append(_mk_len_value(rng, d, ln))
+                    if d['t'] == 'string':
+                        vals.append(_mk_len_value(rng, d, max(1, min(d['min'] + 1, d['max'])), nonascii=True))
                 vals.append(gen_wrong(rng, d))
                 pm.setdefault(p['name'], [G.tag(v) for v in vals])
     return probes
@@ -968,7 +1235,8 @@ def gen_case(rng):
 def gen_cases(seed, tier):
     rng = random.Random(seed * 7919 + 10)
     n = {'quick': 1600, 'thorough': 15000, 'search': 12000}.get(tier, 2600)
-    return [gen_case(rng) for _ in range(n)]
+    # every sixth case is made for Param(value, <datatype property override>)
+    return [gen_override_case(rng) if i % 6 == 5 else gen_case(rng) for i in range(n)]
 
 
 # ------------------------------------------------------------------ specification side (written from the property text)
@@ -1016,6 +1284,10 @@ def spec_conv(d, v):
         if not d['min'] <= len(v) <= d['max'] or (not d['utf8'] and not v.isascii()) or '\0' in v:
             return ('range',)
         return 'ok', v
+    if t == 'blob':
+        if not isinstance(v, bytes):
+            return ('wrong',)
+        return ('ok', v) if d['min'] <= len(v) <= d['max'] else ('range',)
     if t == 'array':
         if not isinstance(v, (list, tuple)):
             return ('wrong',)
@@ -1193,15 +1465,34 @@ def analyse_module(case, m, origin):
             bad.append(f'missing-mandatory:{n}.datatype')
             continue
         lf = numeric_leaf(d)
+        # the CONFIGURED datatype: the class-level datatype with all length / character-set overrides of this entry
+        # applied (independent of the order in which they are written); min/max/unit are treated below
+        dcfg = d
+        for k, v in e.items():
+            if k in CONV_KEYS and k in dt_props(d):
+                dcfg, st = spec_set(dcfg, k, v)
+                if st == 'wrong':
+                    bad.append(f'wrong-type:{n}.{k}')
+                elif st != 'ok':
+                    unsure = True
+        x['dcfg'] = dcfg
+        x['conv_over'] = [k for k in e if k in CONV_KEYS and k in dt_props(d)]
+        if len_inverted(dcfg):
+            bad.append(f'inverted-limits:{n}')
+        keys = list(e)
         for k, v in e.items():
             if k in ('value', 'default'):
-                r = spec_conv(d, v)
+                # the configured value / default must be a value of the CONFIGURED datatype
+                r = spec_conv(dcfg, v)
                 if r[0] == 'wrong':
                     bad.append(f'wrong-type:{n}.{k}')
                 elif r[0] == 'range':
-                    unsure = True
+                    bad.append(f'not-a-value-of-datatype:{n}.{k}')
                 else:
                     x['conv_' + k] = r[1]
+                if k == 'default' and any(keys.index(o) > keys.index(k) for o in x['conv_over']) \
+                        and (spec_conv(d, v)[0] == 'ok') != (r[0] == 'ok'):
+                    x['default_before_override'] = True
             elif k in PARAM_PROPS:
                 ok = prop_value_ok(k, v)
                 if ok is False:
@@ -1209,7 +1500,9 @@ def analyse_module(case, m, origin):
                 elif ok is None:
                     unsure = True
             elif k in dt_props(d):
-                if k in ('min', 'max'):
+                if k in CONV_KEYS:
+                    pass            # treated above
+                elif k in ('min', 'max'):
                     if not _isnum(v) or (lf['t'] == 'int' and v != int(v)):
                         bad.append(f'wrong-type:{n}.{k}')
                 elif k == 'unit':
@@ -1240,6 +1533,31 @@ def analyse_module(case, m, origin):
     if len(set(exps)) != len(exps):
         unsure = True
     return {'bad': bad, 'unsure': unsure, 'params': params, 'mexp': mexp, 'cd': cd, 'entries': ent}
+
+
+def datainfo_shape(di):
+    """the length / character-set properties a described datainfo shows (absent = the SECoP default)"""
+    t = di.get('type')
+    if t == 'array':
+        return [di.get('minlen', 0), di.get('maxlen')] + datainfo_shape(di.get('members', {}))
+    if t == 'string':
+        return [di.get('minchars', 0), di.get('maxchars', UNL), 1 if di.get('isUTF8', False) else 0]
+    if t == 'blob':
+        return [di.get('minbytes', 0), di.get('maxbytes')]
+    return []
+
+
+def spec_valid(d, v):
+    """is v a value of the datatype d?  True / False / None (no claim: numeric limits are judged elsewhere)"""
+    t = d['t']
+    if t in ('string', 'blob'):
+        return spec_conv(d, v)[0] == 'ok'
+    if t == 'array' and isinstance(v, (list, tuple)):
+        if not d['min'] <= len(v) <= d['max']:
+            return False
+        if d['elem']['t'] in ('string', 'blob'):
+            return all(spec_conv(d['elem'], x)[0] == 'ok' for x in v)
+    return None
 
 
 def expected_export(p, e, mod_export):
@@ -1289,6 +1607,10 @@ def oracle(case, obs):
                 kinds = sorted({b.split(':')[0] for b in A['bad']})
                 fails.append(_fail('erroneous-accepted', f"module {name} registered although its configuration has "
                                    f"{', '.join(A['bad'][:4])}", module=name, reasons=A['bad'], kinds=kinds,
+                                   default_order_only=bool(A['bad']) and all(
+                                       b.startswith('not-a-value-of-datatype:') and b.endswith('.default') and
+                                       A['params'][b.split(':')[1].rsplit('.', 1)[0]].get('default_before_override')
+                                       for b in A['bad']),
                                    array_params=[n for n, x in A['params'].items()
                                                  if x['p'].get('dt') and x['p']['dt']['t'] == 'array']))
             elif name not in obs.get('error_modules', []):
@@ -1301,7 +1623,12 @@ def oracle(case, obs):
             if o['kind'] != 'created':
                 continue
         elif o['kind'] != 'created':
-            fails.append(_fail('valid-rejected', f"module {name}: valid configuration rejected ({o.get('errs')})", module=name))
+            errs = o.get('errs') or []
+            fails.append(_fail('valid-rejected', f"module {name}: valid configuration rejected ({o.get('errs')})", module=name,
+                               default_order_only=bool(errs) and all(
+                                   e[0] == 'badvalue' and e[2] == 'default' and
+                                   A['params'].get(e[1], {}).get('default_before_override') for e in errs)))
+            all_clean = False       # the node refusing to start is the consequence already reported here
             continue
         fails.extend(check_applied(case, obs, name, A, o))
     if any_bad and obs['started']:
@@ -1390,6 +1717,24 @@ def check_applied(case, obs, name, A, o):
             continue
         d = p['dt']
         lf = numeric_leaf(d)
+        dcfg = x.get('dcfg', d)
+        # the length / character-set properties: on the instance, in the description, in later checks
+        if x.get('conv_over'):
+            if s.get('shape') != spec_shape(dcfg):
+                fails.append(_fail('limits', f'module {name}: {n} configured datatype properties {spec_shape(dcfg)!r}, '
+                                   f'instance has {s.get("shape")!r}', module=name, param=n))
+            if acc is not None and datainfo_shape(acc['datainfo']) != spec_shape(dcfg):
+                fails.append(_fail('describe', f'module {name}: {n} datainfo shows {datainfo_shape(acc["datainfo"])!r}, '
+                                   f'configured {spec_shape(dcfg)!r}'))
+        if d['t'] in LEN_KEYS:
+            for pr, res in s['probes']:
+                verdict = spec_valid(dcfg, G.untag(pr))
+                if verdict is True and res[0] != 'ok':
+                    fails.append(_fail('range-check', f'module {name}: {n} = {G.untag(pr)!r} rejected ({res[1]}) although it '
+                                       f'is a value of the configured datatype {spec_shape(dcfg)!r}', module=name, param=n))
+                if verdict is False and res[0] == 'ok':
+                    fails.append(_fail('range-check', f'module {name}: {n} = {G.untag(pr)!r} accepted although it is no '
+                                       f'value of the configured datatype {spec_shape(dcfg)!r}', module=name, param=n))
         # start value
         want = None
         if 'conv_value' in x:
@@ -1420,7 +1765,7 @@ def check_applied(case, obs, name, A, o):
             for pr, res in s['probes']:
                 v = G.untag(pr)
                 if d['t'] == 'array':
-                    if not (isinstance(v, list) and len(v) == 1):
+                    if not (isinstance(v, list) and len(v) == 1) or not dcfg['min'] <= 1 <= dcfg['max']:
                         continue
                     v = v[0]
                 if not _isnum(v) or (lf['t'] == 'int' and v != int(v)):
@@ -1467,6 +1812,11 @@ FINDING_CLASSIFIERS = {
     # configured value outside the (possibly overridden) limits of a parameter with a write method: cached, never written
     'out_of_range_not_written': lambda case, obs, f: f['class'] == 'write-count' and f['detail']['nwrites'] == 0
     and f['detail']['outside_limits'],
+    # proposed: a `default` written BEFORE a datatype override of the same Param that decides whether it is legal: checked
+    # with the datatype as it is at that position of the dict (order dependent): accepted and silently dropped, or a valid
+    # configuration refused.  Never the positional value of Param(...): config.Param puts it last.
+    'default_before_datatype_override': lambda case, obs, f: f['class'] in ('erroneous-accepted', 'valid-rejected')
+    and bool(f['detail'].get('default_order_only')),
 }
 
 
@@ -1481,10 +1831,36 @@ def nontrivial_key(case, obs):
     return json.dumps([case['classes'], case['files']], sort_keys=True)
 
 
+def override_labels(case):
+    """for every Param(value, <length / character-set override>): is the value legal for the class-level datatype and
+    for the configured one?"""
+    labs = []
+    for f in case['files']:
+        for m in f['mods']:
+            cd = case['classes'][m['cls']]
+            byname = {p['name']: p for p in cd['params']}
+            for k, kw in m['kws']:
+                p = byname.get(k)
+                if kw[0] != 'param' or kw[1] is None or not p or p['kind'] != 'param' or not p.get('dt'):
+                    continue
+                d = dcfg = p['dt']
+                hit, ok = False, True
+                for kk, vv in kw[2]:
+                    if kk in CONV_KEYS and kk in dt_props(d):
+                        dcfg, st = spec_set(dcfg, kk, G.untag(vv))
+                        hit, ok = True, ok and st == 'ok'
+                if hit and ok:
+                    v = G.untag(kw[1])
+                    labs.append('override: value %s for the class datatype, %s for the configured datatype' % (
+                        'legal' if spec_conv(d, v)[0] == 'ok' else 'illegal',
+                        'legal' if spec_conv(dcfg, v)[0] == 'ok' else 'illegal'))
+    return labs
+
+
 def outcome_labels(case, obs):
     if obs['load'] != 'ok':
         return ['load-failed']
-    labs = ['node-started' if obs['started'] else 'node-refused', f"files-{len(case['files'])}"]
+    labs = ['node-started' if obs['started'] else 'node-refused', f"files-{len(case['files'])}"] + override_labels(case)
     for n, m in obs['mods']:
         labs.append('module-' + m['kind'])
         for e in m.get('errs', []):
